@@ -31,7 +31,7 @@ RONS = ["(core:[var(Major)],extra_core:[],build:[])", "(core:[var(Major),var(Min
         "(core:[var(Major)],extra_core:[],build:[],precedence_order:[])", "(core:[var(Major)],extra_core:[],build:[],precedence_order:[Major,Major])"]
 JSONS = ["{}", "{\"a\":1}", "{\"a\":{\"b\":\"x\"}}", "[1,2]", "1", "\"s\"", "null", "{", "", "{\"a\":1e400}", "{\"a\":1.5}", "{\"é\":\"ü\"}", "{\"a\":[{\"b\":null}]}", "{\"a\":18446744073709551616}", "x"]
 INDEXED = ["0=5", "1=x", "-1=3", "~1=3", "99=1", "=", "a=b", "0", "0=", "1=１", "0=-1", "0=99999999999999999999", "-99999999999999999999=1", "1", "-1", "~0", "0=é", "2=é/ü", "0=00", "1=4294967296"]
-FORMATS = ["semver", "pep440", "auto", "zerv", "SEMVER", "json", ""]
+FORMATS = ["semver", "pep440", "auto", "zerv", "SEMVER", "Pep440", "AUTO", "ZERV", "json", ""]
 SCHEMAS = zgen.PRESETS + ["bogus", "", "standard-", "calver", "Standard"]
 RULES = ["[(pattern:\"develop\",pre_release_label:beta,pre_release_num:1,post_mode:commit)]", "[]", "[(pattern:\"x/*\",pre_release_label:rc,post_mode:tag)]", "(", "",
          "[(pattern:\"*\",pre_release_label:alpha,pre_release_num:4294967296,post_mode:tag)]", "[(pattern:\"\",pre_release_label:rc,post_mode:tag)]",
@@ -53,7 +53,7 @@ def help_flags(sub):
 
 def pool_for(name):
     if name in ("source",):
-        return ["none", "stdin", "git", "svn", ""]
+        return ["none", "stdin", "git", "svn", "", "NONE", "Stdin", "GIT"]
     if name in ("input-format", "output-format", "format"):
         return FORMATS
     if name == "schema":
@@ -73,9 +73,9 @@ def pool_for(name):
     if name == "branch-rules":
         return RULES
     if name == "post-mode":
-        return ["tag", "commit", "x", ""]
+        return ["tag", "commit", "x", "", "TAG", "Commit", "cOMMIT", "Tag"]
     if name in ("pre-release-label", "bump-pre-release-label"):
-        return ["alpha", "beta", "rc", "a", "b", "c", "pre", "preview", "ALPHA", "", "é", "gamma", "{{ 'rc' }}", "{{"]
+        return ["alpha", "beta", "rc", "a", "b", "c", "pre", "preview", "ALPHA", "Beta", "RC", "", "é", "gamma", "{{ 'rc' }}", "{{"]
     if name in ("bumped-branch", "bumped-commit-hash", "output-prefix"):
         return TEXTS
     return NUMS
@@ -301,5 +301,5 @@ RULE = ("inprocess_*: render / version calls with adversarial version strings, t
         "control text, numbers around 2^32 / 2^64, good and bad templates incl. every template function with extreme arguments, RON, JSON, index specs, invalid UTF-8 bytes) "
         "and stdin (valid / damaged RON, bytes); each run and its -v twin must be clean (status 0 with the result only, or non-zero with stderr and empty stdout), and -v / RUST_LOG "
         "must not change stdout. closed_stdout: output paths with the reader gone. git_fault_injection: real repositories (tagged, ahead, dirty, detached, annotated, merge, "
-        "empty, none) with a stub git that makes each single git invocation zerv performs fail in 7 ways (error exits, not-a-repository, no HEAD, garbage, empty, killed, noisy) "
+        "empty, none) with a stub git that makes each single git invocation zerv performs fail in 8 ways (error exits with and without a message, not-a-repository, no HEAD, garbage, empty, killed, noisy) "
         "plus git missing. distinct_nontrivial = distinct (status, output) classes and fault points")
